@@ -63,7 +63,7 @@ func c17(args []string) {
 				if !c.Thorough() && (si+oi+n)%2 == 1 {
 					continue
 				}
-				reps := c.Pick(1, 4)
+				reps := c.Pick(2, 6)
 				for r := 0; r < reps; r++ {
 					jobs = append(jobs, &job{n: n, max: 2*n + rng.Intn(3), size: size, order: order, mixed: (si+oi+r)%2 == 0,
 						cfg: Cfg{Buf: []int{1, 3, 128}[rng.Intn(3)], Procs: []int{1, 2, 4}[rng.Intn(3)], Sched: fmt.Sprintf("%d,300,500", rng.Intn(1<<30))}})
@@ -73,7 +73,7 @@ func c17(args []string) {
 	}
 	for _, n := range []int{1, 2} {
 		for _, mixed := range []bool{true, false} {
-			for r := 0; r < c.Pick(1, 3); r++ {
+			for r := 0; r < c.Pick(1, 4); r++ {
 				jobs = append(jobs, &job{n: n, max: 2 * n, size: 70000, order: "none", mixed: mixed, rerun: true, cfg: Cfg{Buf: 128, Procs: 4, SoftSec: 5}})
 			}
 		}
@@ -186,12 +186,19 @@ func c17(args []string) {
 					allKnown = false
 				}
 			}
-			if !allKnown || !j.rerun {
+			if !allKnown {
 				return
 			}
+			// only the known audit finding: the byte comparison, listing and exactly-once oracles all held
+			c.Count("streamed_items_compared", j.n)
+			c.Nontrivial(fmt.Sprintf("%d|%d|%d|%s|%v|%v", j.n, j.max, j.size, j.order, j.mixed, j.cfg))
+			if !j.rerun {
+				return
+			}
+		} else {
+			c.Count("streamed_items_compared", j.n)
+			c.Nontrivial(fmt.Sprintf("%d|%d|%d|%s|%v|%v", j.n, j.max, j.size, j.order, j.mixed, j.cfg))
 		}
-		c.Count("streamed_items_compared", j.n)
-		c.Nontrivial(fmt.Sprintf("%d|%d|%d|%s|%v|%v", j.n, j.max, j.size, j.order, j.mixed, j.cfg))
 		if !j.rerun {
 			if i%9 == 0 {
 				c.Sample(map[string]interface{}{"n": j.n, "max": j.max, "payload_size": j.size, "exit_order": j.order, "producer_has_regular_output": j.mixed, "cfg": j.cfg, "bytes_equal": true})
